@@ -9,6 +9,8 @@ bad = 0
 for f in sorted(os.listdir(os.path.join(VERIF, "harmless"))):
     if not f.endswith(".diff"):
         continue
+    if sys.argv[1:] and f[:-5] not in sys.argv[1:]:
+        continue
     os.makedirs(os.path.join(VERIF, ".work"), exist_ok=True)
     scratch = tempfile.mkdtemp(prefix="harmless-", dir=os.path.join(VERIF, ".work"))
     try:
